@@ -3,7 +3,7 @@
   methods of the handles it obtained), and the transition function `Sys.step` that the
   theorems quantify over (`run`) and that the line-protocol driver executes.
 -/
-import Stfs.Model.Handle
+import Stfs.Model.File
 namespace Stfs
 
 inductive Call
@@ -26,6 +26,13 @@ inductive Call
   | open_ (id : Nat) (name : Name)
   | hwrite (id : Nat) (data : Bytes)
   | hwriteString (id : Nat) (data : Bytes)
+  | hread (id : Nat) (n : Nat)
+  | hreadAt (id : Nat) (n : Nat) (off : Int)
+  | hseek (id : Nat) (off : Int) (whence : Int)
+  | hwriteAt (id : Nat) (data : Bytes) (off : Int)
+  | htruncate (id : Nat) (size : Int)
+  | hstat (id : Nat)
+  | hname (id : Nat)
   | hsync (id : Nat)
   | hclose (id : Nat)
   | hreaddir (id : Nat) (count : Int)
@@ -39,6 +46,8 @@ inductive Val
   | infos (is : List Info)
   | bytes (b : Bytes)
   | count (n : Nat)
+  | read (b : Bytes) (eof : Bool)
+  | offset (i : Int)
   | badHandle
 deriving Repr, Inhabited
 
@@ -58,7 +67,17 @@ def Sys.run {α} (s : Sys) (m : M α) (v : α → Val) : Sys × Except Err Val :
   | (w, .ok a) => ({ s with w := w }, .ok (v a))
   | (w, .error e) => ({ s with w := w }, .error e)
 
-def Sys.step (f : FsCfg) (s : Sys) (env : Env) : Call → Sys × Except Err Val
+/-- another handle's streaming read has not been drained: its goroutine still holds the read
+    operations' lock and the drive (finding F22) -/
+def Sys.blockedBy (s : Sys) (self : Option Nat) : Bool :=
+  s.handles.any (fun x => x.2.pending && some x.1 != self)
+
+def Call.handleId : Call → Option Nat
+  | .hwrite id _ | .hwriteString id _ | .hread id _ | .hreadAt id _ _ | .hseek id _ _ | .hwriteAt id _ _
+  | .htruncate id _ | .hstat id | .hname id | .hsync id | .hclose id | .hreaddir id _ => some id
+  | _ => none
+
+def Sys.step0 (f : FsCfg) (s : Sys) (env : Env) : Call → Sys × Except Err Val
   | .init r p => s.run (initFs f env r p) .name
   | .mkdir n p => s.run (mkdir f env n p) (fun _ => .unit)
   | .mkdirAll n p => s.run (mkdirAll f env n p) (fun _ => .unit)
@@ -100,6 +119,65 @@ def Sys.step (f : FsCfg) (s : Sys) (env : Env) : Call → Sys × Except Err Val
       match hWrite f h data s.w with
       | (w, .ok (h, n)) => (({ s with w := w } : Sys).setHandle id h, .ok (.count n))
       | (w, .error e) => ({ s with w := w }, .error e)
+  | .hread id n =>
+    match s.getHandle id with
+    | none => (s, .ok .badHandle)
+    | some h =>
+      match hRead f h n s.w with
+      | (w, .ok (h, b, eof)) => (({ s with w := w } : Sys).setHandle id h, .ok (.read b eof))
+      | (w, .error e) => ({ s with w := w }, .error e)
+  | .hreadAt id n off =>
+    match s.getHandle id with
+    | none => (s, .ok .badHandle)
+    | some h =>
+      match hReadAt f h n off s.w with
+      | (w, .ok (h, b, eof)) => (({ s with w := w } : Sys).setHandle id h, .ok (.read b eof))
+      | (w, .error e) => ({ s with w := w }, .error e)
+  | .hseek id off whence =>
+    match s.getHandle id with
+    | none => (s, .ok .badHandle)
+    | some h =>
+      match hSeekNoLock f h off whence s.w with
+      | (w, .ok (h, r)) => (({ s with w := w } : Sys).setHandle id h, .ok (.offset r))
+      | (w, .error e) => ({ s with w := w }, .error e)
+  | .hwriteAt id data off =>
+    match s.getHandle id with
+    | none => (s, .ok .badHandle)
+    | some h =>
+      match writeGuard h with
+      | some e => (s, .error e)
+      | none =>
+        -- the handle object keeps the write cache `enterWriteMode` set up even when the rest fails
+        match enterWriteMode f h s.w with
+        | (w, .error e) => ({ s with w := w }, .error e)
+        | (w, .ok h1) =>
+          match hWriteAtCore f h1 data off w with
+          | (w, .ok (h2, n)) => (({ s with w := w } : Sys).setHandle id h2, .ok (.count n))
+          | (w, .error e) => (({ s with w := w } : Sys).setHandle id h1, .error e)
+  | .htruncate id size =>
+    match s.getHandle id with
+    | none => (s, .ok .badHandle)
+    | some h =>
+      match writeGuard h with
+      | some e => (s, .error e)
+      | none =>
+        match enterWriteMode f h s.w with
+        | (w, .error e) => ({ s with w := w }, .error e)
+        | (w, .ok h1) =>
+          match hTruncateCore h1 size w with
+          | (w, .ok h2) => (({ s with w := w } : Sys).setHandle id h2, .ok .unit)
+          | (w, .error e) => (({ s with w := w } : Sys).setHandle id h1, .error e)
+  | .hstat id =>
+    match s.getHandle id with
+    | none => (s, .ok .badHandle)
+    | some h =>
+      match hStat h s.w with
+      | (w, .ok (h, i)) => (({ s with w := w } : Sys).setHandle id h, .ok (.info i))
+      | (w, .error e) => ({ s with w := w }, .error e)
+  | .hname id =>
+    match s.getHandle id with
+    | none => (s, .ok .badHandle)
+    | some h => (s, .ok (.name (hName h)))
   | .hsync id =>
     match s.getHandle id with
     | none => (s, .ok .badHandle)
@@ -118,6 +196,16 @@ def Sys.step (f : FsCfg) (s : Sys) (env : Env) : Call → Sys × Except Err Val
     match s.getHandle id with
     | none => (s, .ok .badHandle)
     | some h => s.run (hReaddir h n) .infos
+
+/-- One call.  While another handle's streaming read is pending, a call that needs the drive
+    blocks forever holding the filesystem lock (everything is stuck from then on); a call that
+    does not need the drive is unaffected. -/
+def Sys.step (f : FsCfg) (s : Sys) (env : Env) (c : Call) : Sys × Except Err Val :=
+  if s.blockedBy c.handleId && !s.w.stuck then
+    match Sys.step0 f { s with w := { s.w with stuck := true } } env c with
+    | (s', .error .stuck) => (s', .error .stuck)
+    | (s', r) => ({ s' with w := { s'.w with stuck := false } }, r)
+  else Sys.step0 f s env c
 
 /-- the state after a history (calls paired with their oracle inputs) -/
 def Sys.runAll (f : FsCfg) (s : Sys) : List (Env × Call) → Sys
